@@ -363,6 +363,11 @@ def _main(args, pid, tier, seed, t0, mod, builds, scratch):
         print("INCONCLUSIVE property=%s: %s" % (pid, msg))
 
     anchored = anchored_line_coverage(pid, linecov, builds.pure) if linecov else {}
+    if os.environ.get("VERIF_COV_OUT") and linecov:
+        # tools/union_cov.py: which library lines does NO check reach
+        os.makedirs(os.environ["VERIF_COV_OUT"], exist_ok=True)
+        with open(os.path.join(os.environ["VERIF_COV_OUT"], "%s.json" % pid), "w") as f:
+            json.dump({"pure_dir": builds.pure, "lines": {k: sorted(v) for k, v in linecov.items()}}, f)
     wall = time.time() - t0
     ev = {
         "property_id": pid,
